@@ -49,6 +49,15 @@ var kindNames = [...]string{"Get", "Has", "Iterator", "ReverseIterator", "IterNe
 
 func (k CallKind) String() string { return kindNames[k] }
 
+// IsWrite reports whether the call changes (or stages a change of) the stored data.
+func (k CallKind) IsWrite() bool {
+	switch k {
+	case CBatchSet, CBatchDelete, CBatchWrite, CSet, CDelete:
+		return true
+	}
+	return false
+}
+
 // KV is one stored pair.
 type KV struct {
 	K, V []byte
@@ -86,6 +95,8 @@ type Store struct {
 
 	// LastFaultStack holds the call stack (program counters) of the most recent injected fault.
 	LastFaultStack []uintptr
+	// LastFaultKind is the kind of the call that received the most recent injected fault.
+	LastFaultKind CallKind
 
 	// Before, if set, is called before every storage call (scheduling point).
 	Before func(kind CallKind, key []byte)
@@ -202,6 +213,7 @@ func (s *Store) call(kind CallKind, key []byte) error {
 	if fail {
 		pcs := make([]uintptr, 48)
 		s.LastFaultStack = pcs[:runtime.Callers(2, pcs)]
+		s.LastFaultKind = kind
 	}
 	s.mu.Unlock()
 	if fail {
